@@ -116,6 +116,7 @@ type pathState struct {
 	concrete map[string]uint64 // concrete replay mode: name -> value (nil when symbolic)
 	concreteMode bool
 	budgetOK bool
+	budgetFails string // label of the violation a step-budget exhaustion stands for ("" = machinery problem)
 }
 
 func newPathState(harness string, item WorkItem, s *Solver, maxSteps int64, unwind int) *pathState {
